@@ -26,6 +26,8 @@ import Driver.Suites.Bucket
 import Driver.Suites.Sem
 import Driver.Suites.Codec
 import Driver.Suites.Reader
+import Driver.Suites.Geometry
+import Driver.Suites.CreateVerify
 /-! Table of suites known to the driver.  One line per suite (merge=union friendly). -/
 namespace Driver
 def registry : List Suite := [
@@ -63,5 +65,7 @@ def registry : List Suite := [
   Suites.Sem.suite,
   Suites.Codec.suite,
   Suites.Reader.suite,
+  Suites.Geometry.suite,
+  Suites.CreateVerify.suite,
 ]
 end Driver
